@@ -120,6 +120,8 @@ class Sched:
         t.blocked = None
         if self.aborting:
             raise _Abort()
+        if t.killed:
+            raise Killed()
 
     def hold(self):
         """park without it counting as a step: the thread continues (up to its first shared
@@ -133,6 +135,8 @@ class Sched:
         t.pending = None
         if self.aborting:
             raise _Abort()
+        if t.killed:
+            raise Killed()
 
     def current(self) -> Optional[int]:
         t = getattr(self.tl, "t", None)
@@ -216,6 +220,20 @@ class Sched:
         t.sem.release()
         self._wait()
 
+    def kill(self, tid: int):
+        """thread `tid` dies where it is parked: `Killed` is raised in it instead of the operation it was about to
+        perform; the `with` blocks it unwinds through release their locks; no further step of it is shown"""
+        t = self.threads[tid]
+        self.macro.append(tid)
+        self.mlabels.append(["crash"])
+        if t.finished:
+            return
+        t.killed = True
+        t.started = True
+        t.started_running = True
+        t.sem.release()
+        self._wait()
+
     def abort(self):
         self.aborting = True
         for t in self.threads:
@@ -246,8 +264,10 @@ class FakeLock:
         return True
 
     def release(self):
-        self.sched.yield_point("rel")
-        self.holder = None
+        try:
+            self.sched.yield_point("rel")
+        finally:
+            self.holder = None  # a thread that dies while it leaves the block has left it all the same
 
     def __enter__(self):
         self.acquire()
@@ -1330,6 +1350,22 @@ def make_pool(procs: int):
     import multiprocessing as mp
 
     return mp.get_context("fork").Pool(procs)
+
+
+def run_events(kinds, workers, events: List[str]):
+    """the real code with context switches at the external operations; `events`: "<t>" = one scheduler step of thread
+    t, "c<t>" = thread t dies where it is parked (models Local.crash / Dist.crash)"""
+    sysm = System(kinds, workers, EXT, False)
+    try:
+        for e in events:
+            if e.startswith("c"):
+                sysm.sched.kill(int(e[1:]))
+            else:
+                sysm.sched.step(int(e))
+        sysm.deadlock = False
+    finally:
+        sysm.close()
+    return sysm
 
 
 def run_random(kinds, workers, seed: int, stutter_p: float = 0.15, gate_fin: bool = False):
